@@ -378,6 +378,8 @@ class Config:
             return path.alloc(Obj(cls, fields, mdl))
         if isinstance(t, C.Opaque):
             return path.fresh_sym(('opq', t.tag), hint)
+        if isinstance(t, C.ExtT):
+            return t.fresh(self, path, hint)
         if isinstance(t, C.Rec):
             # an arbitrary existing record of the class's record heap (ghost MapOf): symbolic key in the domain
             self.ensure_ghost(path, self.top)
@@ -545,6 +547,8 @@ class Config:
                             path.add_def(z3.Length(tgt.sym.t) <= tgt.maxlen)
                     elif isinstance(ft, C.MapOf) and isinstance(tgt, MObj):
                         self.havoc_map(path, cur, n)
+                    elif isinstance(ft, C.ExtT) and isinstance(tgt, ExtObj):
+                        tgt.ext_havoc(path, cur, n)
                     elif isinstance(ft, C.Event) and isinstance(tgt, Obj):
                         tgt.fields['_flag'] = path.fresh_sym('bool', n)
                     elif isinstance(ft, C.OneOf) and len(ft.values) > 1:
